@@ -602,6 +602,36 @@ def ite(c, a, b):
     return R(z3.If(c.term, a.z3(), b.z3()))
 
 
+class NaNR(Sym):
+    """IEEE NaN as produced by numpy for sqrt(negative): propagates through arithmetic, every
+    ordered comparison is False (this much of IEEE is needed to follow the real code where it
+    deliberately relies on NaN comparing False)."""
+    __slots__ = ()
+
+    def _n(self, *a):
+        return self
+    __add__ = __radd__ = __sub__ = __rsub__ = __mul__ = __rmul__ = __truediv__ = __rtruediv__ = _n
+    __neg__ = __pos__ = __abs__ = sqrt = absolute = floor = ceil = _n
+
+    def _f(self, o):
+        return B(False)
+    __lt__ = __le__ = __gt__ = __ge__ = __eq__ = _f
+
+    def __ne__(self, o):
+        return B(True)
+
+    __hash__ = None
+
+    def __bool__(self):
+        return True
+
+    def __repr__(self):
+        return 'NaN'
+
+
+NAN = NaNR()
+
+
 class R(Sym):
     """exact real: Fraction constant or z3 Real term."""
     __slots__ = ('v',)
@@ -619,6 +649,8 @@ class R(Sym):
     def lift(x):
         if isinstance(x, R):
             return x
+        if isinstance(x, NaNR):
+            return None
         if isinstance(x, Z):
             if isinstance(x.v, int):
                 return R(Fraction(x.v))
@@ -793,6 +825,8 @@ class R(Sym):
     def sqrt(self):
         if isinstance(self.v, Fraction):
             if self.v < 0:
+                if getattr(ctx(), 'allow_nan', False):
+                    return NAN
                 raise NonFinite('sqrt of negative')
             n, d = self.v.numerator, self.v.denominator
             import math
